@@ -130,10 +130,18 @@ func opHash(r *Req) (map[string]any, error) {
 	_, _ = h.Write(m[:s])
 	_, _ = h.Write(m[s:])
 	sum := h.SumHash()
-	// ComputeHash on the used object, then on a fresh one
+	// The object stays in use and everything it returned is held, uncopied, until the end of the operation (a build in
+	// which a digest shares memory with the hasher differs from one in which it is a copy): ComputeHash of the message and
+	// of a longer one on the used object, a streamed digest of the suffix after a Reset, ComputeHash on a fresh object.
 	c1 := h.ComputeHash(m)
+	c3 := h.ComputeHash(append(append([]byte{}, m...), 0x01))
+	h.Reset()
+	_, _ = h.Write(m[s:])
+	sumSuffix := h.SumHash()
+	_, _ = h.Write(m[:s])
+	sumMore := h.SumHash()
 	c2 := newHasher(r.Algo).ComputeHash(m)
-	out := map[string]any{"sum": hx(sum), "compute_dirty": hx(c1), "compute": hx(c2), "size": h.Size()}
+	out := map[string]any{"sum": hx(sum), "compute_dirty": hx(c1), "compute_longer": hx(c3), "sum_suffix": hx(sumSuffix), "sum_continued": hx(sumMore), "compute": hx(c2), "size": h.Size()}
 	switch r.Algo {
 	case "sha3_256":
 		var d [hash.HashLenSHA3_256]byte
